@@ -27,6 +27,7 @@ import QV.Lemmas.Prob
 import QV.Lemmas.Gibbs
 import QV.Lemmas.PyFlag
 import QV.Lemmas.CallShape
+import QV.Lemmas.DrawCount
 
 namespace QV.Props
 namespace C05
@@ -673,6 +674,166 @@ example : (⟨⟨7, true, bvec (fun i : Fin 2 => i = 0)⟩, some ⟨7, true, bve
   have e : (fun i : Fin 2 => decide (i = 0)) = (fun i => Fin.cases true (fun i => Fin.cases false (fun i => i.elim0) i) i) := by
     funext i; fin_cases i <;> rfl
   simp only [Function.comp, e]
+
+/-! ## Late theorems: the `torch.bernoulli` call pattern of `gibbs_steps` -/
+
+/-- **C05_call_shapes_list.** The recorded call pattern the harness compares with (`RBM.callShapes` / `PRBM.callShapes`, the
+shapes of the tensors handed to `torch.bernoulli` by `gibbs_steps(k, ·)` on `B` chains, in call order) is `k` repetitions of
+`[(B,h), (B,n)]` resp. `[(B,h), (B,a), (B,n)]` — hidden [, auxiliary], visible per pass — so it has `2k` resp. `3k` calls, and
+its total element count is `k·B·(h+n)` resp. `k·B·(h+a+n)`. (The list form is by construction of the model; the counts are
+what the next theorem ties to the sampler program.) -/
+theorem C05_call_shapes_list (r : RBM ℝ n h) (q : PRBM ℝ n h a) (k B : ℕ) :
+    r.callShapes k B = (List.replicate k [(B, h), (B, n)]).flatten
+    ∧ q.callShapes k B = (List.replicate k [(B, h), (B, a), (B, n)]).flatten
+    ∧ (r.callShapes k B).length = 2 * k ∧ (q.callShapes k B).length = 3 * k
+    ∧ ((r.callShapes k B).map fun s => s.1 * s.2).sum = k * (B * (h + n))
+    ∧ ((q.callShapes k B).map fun s => s.1 * s.2).sum = k * (B * (h + a + n)) := by
+  have e1 : ∀ k : ℕ, r.callShapes k B = (List.replicate k [(B, h), (B, n)]).flatten := by
+    intro k
+    unfold RBM.callShapes
+    induction k with
+    | zero => rfl
+    | succ k ih => rw [List.range_succ, List.flatMap_append, ih, List.replicate_succ', List.flatten_append]; simp
+  have e2 : ∀ k : ℕ, q.callShapes k B = (List.replicate k [(B, h), (B, a), (B, n)]).flatten := by
+    intro k
+    unfold PRBM.callShapes
+    induction k with
+    | zero => rfl
+    | succ k ih => rw [List.range_succ, List.flatMap_append, ih, List.replicate_succ', List.flatten_append]; simp
+  have t1 : ∀ k : ℕ, ((List.replicate k [(B, h), (B, n)]).flatten.map fun s => s.1 * s.2).sum = k * (B * (h + n)) := by
+    intro k
+    induction k with
+    | zero => simp
+    | succ k ih => rw [List.replicate_succ, List.flatten_cons, List.map_append, List.sum_append, ih]; simp; ring
+  have t2 : ∀ k : ℕ, ((List.replicate k [(B, h), (B, a), (B, n)]).flatten.map fun s => s.1 * s.2).sum
+      = k * (B * (h + a + n)) := by
+    intro k
+    induction k with
+    | zero => simp
+    | succ k ih => rw [List.replicate_succ, List.flatten_cons, List.map_append, List.sum_append, ih]; simp; ring
+  refine ⟨e1 k, e2 k, ?_, ?_, ?_, ?_⟩
+  · rw [e1]; simp [List.length_flatten, Nat.mul_comm]
+  · rw [e2]; simp [List.length_flatten, Nat.mul_comm]
+  · rw [e1, t1]
+  · rw [e2, t2]
+
+/-- **C05_call_shapes.** The call pattern IS the draw pattern of the model's own sampler program: on EVERY complete execution
+path of the batched `gibbsStepsB k` started from ANY batch of `B` rows (and of `sampleFrom` with / without a start state, which
+adds the one `B × n` fair-coin call), the number of Bernoulli draws consumed — and of probabilities presented to the sampler —
+equals the total element count of `callShapes k B`: `k·B·(h+n)` for a `BinaryRBM`, `k·B·(h+a+n)` for a `PurificationRBM`;
+for the single-chain `gibbsSteps k` it is the `B = 1` count. So every pass draws every hidden (auxiliary) and visible unit of
+every chain exactly once, no execution draws more or fewer, and a recording is replayed (`run`) successfully only if exactly
+that many draws were consumed. Proof: induction over `k` (`draws_iter`) and over the `Prog` structure (`draws_bind`,
+`draws_flipVec`, `draws_flipMat` of `QV.Lemmas.DrawCount`). -/
+theorem C05_call_shapes (r : RBM ℝ n h) (q : PRBM ℝ n h a) (k : ℕ) {B : ℕ} (vs : Fin B → Fin n → Bool)
+    (v : Fin n → Bool) :
+    Draws (r.gibbsStepsB k vs) ((r.callShapes k B).map fun s => s.1 * s.2).sum
+    ∧ Draws (q.gibbsStepsB k vs) ((q.callShapes k B).map fun s => s.1 * s.2).sum
+    ∧ Draws (r.gibbsSteps k v) ((r.callShapes k 1).map fun s => s.1 * s.2).sum
+    ∧ Draws (q.gibbsSteps k v) ((q.callShapes k 1).map fun s => s.1 * s.2).sum
+    ∧ Draws (sampleFrom (r.gibbsStepsB k) (some vs)) (k * (B * (h + n)))
+    ∧ Draws (sampleFrom (r.gibbsStepsB (B := B) k) none) (B * n + k * (B * (h + n)))
+    ∧ Draws (sampleFrom (q.gibbsStepsB (B := B) k) none) (B * n + k * (B * (h + a + n)))
+    ∧ (∀ ds w ps rest, (r.gibbsStepsB k vs).run ds = some (w, ps, rest) →
+        ps.length = k * (B * (h + n)) ∧ ds.length = k * (B * (h + n)) + rest.length)
+    ∧ (∀ ds w ps rest, (q.gibbsStepsB k vs).run ds = some (w, ps, rest) →
+        ps.length = k * (B * (h + a + n)) ∧ ds.length = k * (B * (h + a + n)) + rest.length) := by
+  obtain ⟨-, -, -, -, s1, s2⟩ := C05_call_shapes_list r q k B
+  obtain ⟨-, -, -, -, s1', s2'⟩ := C05_call_shapes_list r q k 1
+  have stepB : ∀ us : Fin B → Fin n → Bool, Draws (r.gibbsStepB us) (B * (h + n)) := fun us => by
+    rw [Nat.mul_add]; exact draws_bind (draws_flipMat _ _ _) (fun _ => draws_flipMat _ _ _)
+  have stepBq : ∀ us : Fin B → Fin n → Bool, Draws (q.gibbsStepB us) (B * (h + a + n)) := fun us => by
+    rw [Nat.mul_add, Nat.mul_add, Nat.add_assoc]
+    exact draws_bind (draws_flipMat _ _ _) (fun _ => draws_bind (draws_flipMat _ _ _) (fun _ => draws_flipMat _ _ _))
+  have step1 : ∀ u : Fin n → Bool, Draws (r.gibbsStep u) (1 * (h + n)) := fun u => by
+    rw [Nat.one_mul]; exact draws_bind (draws_flipVec _ _) (fun _ => draws_flipVec _ _)
+  have step1q : ∀ u : Fin n → Bool, Draws (q.gibbsStep u) (1 * (h + a + n)) := fun u => by
+    rw [Nat.one_mul, Nat.add_assoc]
+    exact draws_bind (draws_flipVec _ _) (fun _ => draws_bind (draws_flipVec _ _) (fun _ => draws_flipVec _ _))
+  have dB : ∀ us, Draws (r.gibbsStepsB k us) (k * (B * (h + n))) := fun us => draws_iter stepB k us
+  have dBq : ∀ us, Draws (q.gibbsStepsB k us) (k * (B * (h + a + n))) := fun us => draws_iter stepBq k us
+  refine ⟨?_, ?_, ?_, ?_, dB vs, ?_, ?_, ?_, ?_⟩
+  · rw [s1]; exact dB vs
+  · rw [s2]; exact dBq vs
+  · rw [s1']; exact draws_iter step1 k v
+  · rw [s2']; exact draws_iter step1q k v
+  · exact draws_bind (draws_flipMat _ _ _) dB
+  · exact draws_bind (draws_flipMat _ _ _) dBq
+  · intro ds w ps rest hr; exact draws_run (dB vs) hr
+  · intro ds w ps rest hr; exact draws_run (dBq vs) hr
+
+/-- the statement of `C05_call_shapes` is about non-empty sets of executions with a non-trivial count: a 1-visible / 1-hidden
+`BinaryRBM`, one chain, one pass has the execution "hidden draw 1, visible draw 0" among its `2 = 1·1·(1+1)`-draw paths, and
+`callShapes 1 1 = [(1,1), (1,1)]`. -/
+example : ([true, false] ∈ ((⟨fun _ _ => 0, fun _ => 0, fun _ => 0⟩ : RBM ℝ 1 1).gibbsStepsB (B := 1) 1 (fun _ _ => false)).paths.map
+      (fun x => x.2.2))
+    ∧ (⟨fun _ _ => 0, fun _ => 0, fun _ => 0⟩ : RBM ℝ 1 1).callShapes 1 1 = [(1, 1), (1, 1)] := by
+  refine ⟨?_, rfl⟩
+  simp [RBM.gibbsStepsB, Prog.iter, RBM.gibbsStepB, Prog.flipMat, Prog.flipVec, Prog.bind, Prog.paths]
+
+/-- **C05_call_contents.** WHAT the calls of `C05_call_shapes` present and return, on EVERY complete execution path of one batched
+pass (`flatM` = the tensor flattened row-major, the recorder's order): the first `torch.bernoulli` call is handed the `B × h`
+hidden conditionals of the CURRENT visible batch, [the second the `B × a` auxiliary conditionals of the same batch,] the last the
+`B × n` visible conditionals given exactly the bits DRAWN by the preceding call(s), and the state the pass returns is exactly the
+matrix of the bits drawn by the last call — nothing is drawn twice, dropped or reordered. And the executions of `k+1` passes are
+the executions of one pass followed by the executions of `k` passes from the state that pass returned (for `k = 0`: no draw at
+all), so this describes every call of `gibbs_steps(k)`. -/
+theorem C05_call_contents (r : RBM ℝ n h) (q : PRBM ℝ n h a) {B : ℕ} (vs : Fin B → Fin n → Bool) (k : ℕ) :
+    (∀ x ∈ (r.gibbsStepB vs).paths, ∃ hs : Fin B → Fin h → Bool,
+        x.2.1 = flatM (fun b => r.probH (bvec (vs b))) ++ flatM (fun b => r.probV (bvec (hs b)))
+        ∧ x.2.2 = flatM hs ++ flatM x.1)
+    ∧ (∀ x ∈ (q.gibbsStepB vs).paths, ∃ (hs : Fin B → Fin h → Bool) (as : Fin B → Fin a → Bool),
+        x.2.1 = flatM (fun b => q.probH (bvec (vs b))) ++ (flatM (fun b => q.probA (bvec (vs b)))
+                  ++ flatM (fun b => q.probV (bvec (hs b)) (bvec (as b))))
+        ∧ x.2.2 = flatM hs ++ (flatM as ++ flatM x.1))
+    ∧ (r.gibbsStepsB 0 vs).paths = [(vs, [], [])] ∧ (q.gibbsStepsB 0 vs).paths = [(vs, [], [])]
+    ∧ (r.gibbsStepsB (k + 1) vs).paths = (r.gibbsStepB vs).paths.flatMap (fun x =>
+        (r.gibbsStepsB k x.1).paths.map fun y => (y.1, x.2.1 ++ y.2.1, x.2.2 ++ y.2.2))
+    ∧ (q.gibbsStepsB (k + 1) vs).paths = (q.gibbsStepB vs).paths.flatMap (fun x =>
+        (q.gibbsStepsB k x.1).paths.map fun y => (y.1, x.2.1 ++ y.2.1, x.2.2 ++ y.2.2)) := by
+  refine ⟨?_, ?_, rfl, rfl, paths_bind _ _, paths_bind _ _⟩
+  · intro x hx
+    simp only [RBM.gibbsStepB, paths_bind, List.mem_flatMap, List.mem_map] at hx
+    obtain ⟨y, hy, z, hz, rfl⟩ := hx
+    refine ⟨y.1, ?_, ?_⟩
+    · simp only [(paths_flipMat _ _ _ y hy).1, (paths_flipMat _ _ _ z hz).1]
+    · simp only [(paths_flipMat _ _ _ y hy).2, (paths_flipMat _ _ _ z hz).2]
+  · intro x hx
+    simp only [PRBM.gibbsStepB, paths_bind, List.mem_flatMap, List.mem_map] at hx
+    obtain ⟨y, hy, _, ⟨w, hw, z, hz, rfl⟩, rfl⟩ := hx
+    refine ⟨y.1, w.1, ?_, ?_⟩
+    · simp only [(paths_flipMat _ _ _ y hy).1, (paths_flipMat _ _ _ w hw).1, (paths_flipMat _ _ _ z hz).1]
+    · simp only [(paths_flipMat _ _ _ y hy).2, (paths_flipMat _ _ _ w hw).2, (paths_flipMat _ _ _ z hz).2]
+
+/-- `C05_call_contents` on a concrete execution: 2 chains of a 1-visible / 1-hidden `BinaryRBM` with zero parameters (all
+conditionals `σ(0)`), hidden draws `(1,0)`, visible draws `(0,1)`: the pass returns the batch `[[0],[1]]`. -/
+example : ∃ x ∈ ((⟨fun _ _ => 0, fun _ => 0, fun _ => 0⟩ : RBM ℝ 1 1).gibbsStepB (B := 2) (fun _ _ => false)).paths,
+    x.2.2 = [true, false, false, true] ∧ flatM x.1 = [false, true] := by
+  simp [RBM.gibbsStepB, Prog.flipMat, Prog.flipVec, Prog.bind, Prog.paths, flatM, List.ofFn_succ]
+  rfl
+
+/-- **C05_replay_length.** The replay the harness performs (`run` on the recorded draws) succeeds EXACTLY on recordings that hold at
+least the `callShapes` element count: `gibbsStepsB k` from any batch of `B` rows replays a recording `ds` iff
+`k·B·(h+n) ≤ ds.length` (`PurificationRBM`: `k·B·(h+a+n)`; `sample` without a start state: plus the `B·n` fair coins), and then the
+leftover is the recording minus exactly that many draws (`C05_call_shapes`). A sampler that makes one call fewer or one more per
+pass therefore cannot be replayed onto the recorded pattern with nothing left over. -/
+theorem C05_replay_length (r : RBM ℝ n h) (q : PRBM ℝ n h a) (k : ℕ) {B : ℕ} (vs : Fin B → Fin n → Bool) (ds : List Bool) :
+    (((r.gibbsStepsB k vs).run ds).isSome ↔ k * (B * (h + n)) ≤ ds.length)
+    ∧ (((q.gibbsStepsB k vs).run ds).isSome ↔ k * (B * (h + a + n)) ≤ ds.length)
+    ∧ (((sampleFrom (r.gibbsStepsB (B := B) k) none).run ds).isSome ↔ B * n + k * (B * (h + n)) ≤ ds.length)
+    ∧ (((sampleFrom (q.gibbsStepsB (B := B) k) none).run ds).isSome ↔ B * n + k * (B * (h + a + n)) ≤ ds.length) := by
+  obtain ⟨-, -, -, -, d1, d2, d3, -, -⟩ := C05_call_shapes r q k vs (fun _ => false)
+  have d0 := (C05_call_shapes r q k vs (fun _ => false)).2.1
+  rw [(C05_call_shapes_list r q k B).2.2.2.2.2] at d0
+  exact ⟨draws_run_isSome d1 ds, draws_run_isSome d0 ds, draws_run_isSome d2 ds, draws_run_isSome d3 ds⟩
+
+/-- `C05_replay_length` on a concrete recording: one chain, one pass of a 1-visible / 1-hidden `BinaryRBM` needs 2 draws; the
+recording `[1]` is refused, `[1,0,1]` is replayed with `[1]` left over and returns the visible state `0`. -/
+example : ((⟨fun _ _ => 0, fun _ => 0, fun _ => 0⟩ : RBM ℝ 1 1).gibbsStepsB (B := 1) 1 (fun _ _ => false)).run [true] = none
+    ∧ (((⟨fun _ _ => 0, fun _ => 0, fun _ => 0⟩ : RBM ℝ 1 1).gibbsStepsB (B := 1) 1 (fun _ _ => false)).run
+        [true, false, true]).map (fun x => (x.1 0 0, x.2.2)) = some (false, [true]) := by
+  constructor <;>
+    simp [RBM.gibbsStepsB, Prog.iter, RBM.gibbsStepB, Prog.flipMat, Prog.flipVec, Prog.bind, Prog.run]
 
 end C05
 end QV.Props
